@@ -518,6 +518,28 @@ func runPair(m map[string]any) Result {
 			return r
 		}
 	}
+	if m["expr3"] != nil {
+		// a third text for the same computation (e.g. sequenced by let)
+		third, err := cpsToString(m["expr3"])
+		if err != nil {
+			return Result{Class: "harness", Detail: err.Error()}
+		}
+		b3 := &builder{carriers: carriers}
+		d3 := b3.build(doc)
+		c3 := doSearch(third, d3)
+		if r := genericChecks(c3, doc, d3, b3, true); r != nil {
+			r.Detail = "(third expression) " + r.Detail
+			return *r
+		}
+		if !admits(adm, c3.out) {
+			r := fail("mismatch", c3.out, "third expression: outcome outside the admissible set")
+			r.Pinned = pin
+			return r
+		}
+		if strict && !sameOutcome(c1.out, c3.out) && !(pin && c1.out.T != "err" && eqU(c1.out, c3.out)) {
+			return fail("differs", c3.out, "the first and the third expression disagree: "+c1.out.show()+" vs "+c3.out.show()+"  ("+third+")")
+		}
+	}
 	if strict && !pin && !sameOutcome(c1.out, c2.out) {
 		// the value is outside what the model pins, but the two texts denote
 		// the same expression: they must agree
